@@ -657,7 +657,10 @@ pub fn wrap_input_plugins(app: Arc<CompassApp>, idxs: &[usize]) -> (Arc<CompassA
             }
         })
         .collect();
-    let app2 = CompassApp { input_plugins: plugins, ..app };
+    // (field assignment instead of struct-update syntax: still compiles when CompassApp gains a
+    // private field, e.g. in a seeded worktree)
+    let mut app2 = app;
+    app2.input_plugins = plugins;
     (Arc::new(app2), log)
 }
 
